@@ -73,6 +73,18 @@ def answers(path, probes, commits, queries):
         except Exception as e:  # noqa: BLE001
             a["transfer"] = "exc:" + type(e).__name__
         a["refs"] = h(sorted(r.refs.as_dict().items()))
+        try:
+            a["repo_parents"] = h([r.get_parents(c) for c in present])
+        except Exception as e:  # noqa: BLE001
+            a["repo_parents"] = "exc:" + type(e).__name__
+        try:
+            a["repo_walk"] = h([e.commit.id for e in r.get_walker(include=heads)]) if heads else "-"
+        except Exception as e:  # noqa: BLE001
+            a["repo_walk"] = "exc:" + type(e).__name__
+        try:
+            a["peeled"] = h(sorted((k, r.refs.get_peeled(k)) for k in r.refs.allkeys() if k.startswith(b"refs/tags/")))
+        except Exception as e:  # noqa: BLE001
+            a["peeled"] = "exc:" + type(e).__name__
         # the theorem's hypothesis: where the commit-graph knows a commit it gives the commit's own parents
         cg = st.get_commit_graph()
         bad = []
@@ -110,11 +122,25 @@ def write_accel(path, which, writer):
             subprocess.run(["git", "--git-dir", path, "multi-pack-index", "write"], env=GIT_ENV, capture_output=True, check=True)
 
 
-def build(base, seed, n, name="r.git"):
+def build(base, seed, n, name="r.git", reverse=False):
     rng, objs, commits, trees, blobs, tags, deps = G.build_objects(seed, n)
+    if len(commits) >= 3:
+        # an octopus merge of three or four earlier commits
+        c = Commit()
+        c.tree = commits[-1].tree
+        c.parents = [x.id for x in rng.sample(commits, min(len(commits), rng.choice([3, 4])))]
+        c.author = c.committer = b"a <a@x>"
+        c.author_time = c.commit_time = 1700005000
+        c.author_timezone = c.commit_timezone = 0
+        c.message = b"octopus %d" % seed
+        commits.append(c)
+        objs.append(c)
     r = Repo.init_bare(os.path.join(base, name), mkdir=True)
     order = list(objs)
     rng.shuffle(order)
+    if reverse:
+        # the same packs (a pack is named after the sorted ids it holds) with another layout inside
+        order = order[:len(order) // 3][::-1] + order[len(order) // 3:2 * (len(order) // 3)][::-1] + order[2 * (len(order) // 3):]
     k = len(order) // 3
     # objects must arrive after what they refer to is irrelevant for a store; two packs and some loose objects
     r.object_store.add_objects([(o, None) for o in order[:k]])
@@ -157,6 +183,13 @@ def extend(path, seed, how):
         r.refs[b"refs/heads/later"] = new[-1].id
         if how == "repack":
             r.object_store.repack()
+        if how == "shallow":
+            r.update_shallow([heads[0]], [])
+        if how == "retag":
+            # packed refs hold a peeled value for the tag; the tag ref then moves to another commit as a loose ref
+            r.refs.pack_refs(all=True)
+            for k in [k for k in r.refs.allkeys() if k.startswith(b"refs/tags/")]:
+                r.refs[k] = new[-1].id
         if how == "prune":
             ks = sorted(k for k in r.refs.allkeys() if k.startswith(b"refs/heads/b"))
             for k in ks[1:]:
@@ -227,7 +260,7 @@ def scenario(req):
             out["variants"].append(rec)
         # mismatched files from another repository
         if req.get("mismatch"):
-            other, oobjs, ocommits = build(base, req["seed"] + 1000, req["n"], name="other.git")
+            other, oobjs, ocommits = build(base, req["seed"] + (1000 if req.get("mismatch") == "foreign" else 0), req["n"], name="other.git", reverse=True)
             write_accel(other, "cg+midx", "dulwich")
             m = os.path.join(base, "m")
             shutil.copytree(path, m)
